@@ -15,7 +15,14 @@ def run(ctx):
     js = jobs.make_jobs(ctx.rng, optimizers.names(), ["cont-zero", "cont-zero", "cont-onesided", "cont-tiny", "cont-sym", "cont", "cont-huge", "disc", "binary", "mixed", "perm"], n,
                         modes=("serial", "serial", "thread", "process") if not ctx.thorough else ("serial", "thread", "process"), max_cycles_choices=(1, 2, 3, 4), multi=True)
     ctx.rule("all exported optimizers × tasks with zero-touching, one-sided, tiny and huge bounds first (where 0/0 and overflow arise) plus integer-coded pairs (a third of them weighted multi-objective) × seeds × serial/thread/process; "
-             "EVERY call of objective_function (also for discarded candidates, also in workers) is recorded and judged by the Lean membership predicate; a case = one run; non-trivial = ≥ 10 objective calls")
+             "a sixth of the continuous tasks derived from an already used, wider task; EVERY call of objective_function (also for discarded candidates, also in workers) is recorded and judged by the Lean membership predicate; a case = one run; non-trivial = ≥ 10 objective calls")
+    # a sixth of the continuous tasks are derived (model_copy(update=variables)) from an already USED, wider task: the guard in front of the objective
+    # must clip to the space the task declares now, not to the one it was first used with
+    for j in ctx.rng.sample(js, len(js) // 6):
+        if j["kind"] in ("cont", "cont-sym", "cont-zero", "cont-onesided") and len(j["specs"]) == 1 and j["specs"][0].get("k") == "contMulti":
+            sp = j["specs"][0]
+            j["derive_from"] = [{"k": "contMulti", "lbs": [lb - 3 * (ub - lb) for lb, ub in zip(sp["lbs"], sp["ubs"])], "ubs": [ub + 3 * (ub - lb) for lb, ub in zip(sp["lbs"], sp["ubs"])]}]
+            j["kind"] = j["kind"] + "+derived"
     results = pmap(trace.run_traced, js)
     for r in results:
         job = r["job"]
